@@ -17,6 +17,7 @@ RULE = (
     ' Also: supplied mappings numbered by hand (ids and entries in no particular order) in a third of the cases, and fixed cases in which the archive is written, read and re-written by separate interpreter processes with different string-hash salts.'
     ' Also: one lineage saved and loaded 800 (thorough 2500) times in a row; in the two-cycle cases every third write request of the save fails in turn with ENOSPC over an older archive (a save that returns normally must have saved).'
     ' Occupied paths hold, in half of those cases, the signed-zero twin of the screen (equal under ==, other bit patterns).'
+    ' One round trip in six uses a path spelled through a symbolic link and "..". Neighbour files of the archive (foo.tmp.h5, foo.h5~, ...) must survive every save.'
 )
 ASSUMPTIONS = [
     "0-row screens are excluded: Screen.save_h5 refuses them (TypeError from np.char.encode) - a refusal, not a lossy round trip",
@@ -308,7 +309,8 @@ def check_case(case):
     paths = []
     try:
         for k in range(case["cycles"]):
-            p = tmp.fresh("screen.h5")
+            # (one case in six: the path is spelled through a symbolic link to a directory, followed by "..")
+            p = tmp.fresh("screen.h5") if (case["cycles"] + len(sc["rows"]) + k) % 6 else tmp.through_symlink("screen.h5")
             paths.append(p)
             if k == 0 and case["superset"]:
                 own.save_h5(p)  # the path already holds another screen (same rows, its own smaller mappings): saving replaces it
@@ -323,7 +325,10 @@ def check_case(case):
                         sib = None  # (renaming collides with the control rule for this screen: no sibling)
                 if sib is not None:
                     sib.save_h5(p)  # ... or an archive of exactly the same shapes with shorter names
+            near = tmp.neighbours(p)  # working-file-like neighbours of the archive: a save leaves them alone
             cur.save_h5(p)
+            bad_ = tmp.changed_neighbours(near)
+            require(not bad_, "save.touches_other_files", lambda: "saving the screen changed other files of the directory: %r" % (bad_,))
             nxt = Screen.load_h5(p)
             compare_screens(s0, nxt, "roundtrip%d" % (k + 1))
             cur = nxt
